@@ -424,7 +424,7 @@ def m_port(st):
         lo, hi, mx = (384, 511, 511) if standard else (256, 383, 511)
     else:
         lo, hi, mx = (7168, 8191, 8191) if standard else (6144, 7167, 8191)
-    p = rng.choice([0, lo - 1, lo, hi, hi + 1, mx, mx + 1, (lo + hi) // 2])
+    p = rng.choice([0, lo - 1, lo, hi, hi + 1, mx, mx + 1, (lo + hi) // 2, -1, -lo])  # a negative number is a number the file name can spell, too
     st.port = p
     in_range = 0 <= p <= mx
     ok = in_range and (st.allow_unregulated or lo <= p <= hi)
